@@ -22,6 +22,9 @@ from .explorer import SymBool, cur, active, unsupported
 _isinstance = isinstance
 
 
+SQUARE_VARS = True
+
+
 class SymTab:
     """per-path symbol table (deterministic ids/names per path)"""
 
@@ -31,7 +34,10 @@ class SymTab:
         self.rad = []       # radicand for roots
         self.pos = []       # known strictly positive
         self.z3v = []
+        self.z3sq = []      # z3 variable standing for the square of a 'pos' symbol (degree halving)
+        self.odd = []       # has the symbol itself (odd power) been used in a z3 term on this path?
         self.rootmemo = {}
+        self.linked = set()
 
     def new(self, name, kind, rad=None, pos=False):
         i = len(self.kind)
@@ -40,6 +46,8 @@ class SymTab:
         self.rad.append(rad)
         self.pos.append(pos or kind == 'pos')
         self.z3v.append(z3.Real('%s#%d' % (name, i)))
+        self.z3sq.append(z3.Real('%s#%d^2' % (name, i)) if kind == 'pos' and SQUARE_VARS else None)
+        self.odd.append(False)
         return i
 
 
@@ -334,12 +342,19 @@ class P:
             t = z3.RealVal(c)
             for s, e in m:
                 v = T.z3v[s]
-                if e > 0:
-                    for _ in range(e):
-                        t = t * v
+                sq = T.z3sq[s]
+                if sq is not None:
+                    ae = abs(e)
+                    fs = [sq] * (ae // 2)
+                    if ae % 2:
+                        fs.append(v)
+                        if not T.odd[s]:
+                            T.odd[s] = True
+                            _link_square(s)
                 else:
-                    for _ in range(-e):
-                        t = t / v
+                    fs = [v] * abs(e)
+                for f in fs:
+                    t = t * f if e > 0 else t / f
             terms.append(t)
         if not terms:
             return z3.RealVal(0)
@@ -362,7 +377,11 @@ class P:
             if not T.pos[s]:
                 unsupported('clearing a denominator whose sign is unknown')
         mul = tuple(sorted((s, -e) for s, e in mins.items()))
-        return self * P({mul: Fraction(1)})
+        r = self * P({mul: Fraction(1)})
+        if _isinstance(r, P) and _has_neg(r):
+            # rewriting rho^2 by a Laurent radicand can re-introduce negative powers (nested roots): repeat
+            return r.cleared()
+        return r
 
     def _cmp(self, o, op):
         o = P.lift(o)
@@ -492,13 +511,30 @@ def register_side(symbols):
         k = T.kind[s]
         v = T.z3v[s]
         if k == 'pos':
-            ctx.pc.append(v > 0)
+            if T.z3sq[s] is not None:
+                ctx.pc.append(T.z3sq[s] > 0)
+                if T.odd[s]:
+                    ctx.pc.append(z3.And(v > 0, v * v == T.z3sq[s]))
+                    T.linked.add(s)
+            else:
+                ctx.pc.append(v > 0)
         elif k == 'sign':
             ctx.pc.append(z3.Or(v == 1, v == -1))
         elif k == 'root':
             rad = T.rad[s]
             ctx.pc.append(z3.And(v > 0 if T.pos[s] else v >= 0, v * v == rad.to_z3()))
             stack.extend(rad.symbols())
+
+
+def _link_square(s):
+    """the symbol itself occurs (odd power): tie it to its square variable"""
+    ctx = cur()
+    T = tab()
+    done = getattr(ctx, '_side_done', None)
+    if done is not None and getattr(ctx, '_side_done_path', None) is ctx.pc and s in done and s not in T.linked:
+        v = T.z3v[s]
+        ctx.pc.append(z3.And(v > 0, v * v == T.z3sq[s]))
+        T.linked.add(s)
 
 
 def _has_neg(p):
@@ -658,6 +694,18 @@ def sqrt(p, assume_pos=False):
     if c is not None:
         return sqrt(c)
     T = tab()
+    if _has_neg(p) and not p.is_monomial():
+        # sqrt(N / M^2) = sqrt(N) / M for a positive monomial M: keep radicands polynomial
+        mins = {}
+        for m in p.t:
+            for s_, e in m:
+                if e < 0:
+                    mins[s_] = min(mins.get(s_, 0), e)
+        if all(T.pos[s_] for s_ in mins):
+            M = P({tuple(sorted((s_, (-e + 1) // 2) for s_, e in mins.items())): Fraction(1)})
+            num = p * M * M
+            if _isinstance(num, P) and not _has_neg(num):
+                return sqrt(num, assume_pos) / M
     if p.is_monomial():
         (m, c), = p.t.items()
         rc = _isqrt_frac(c)
@@ -735,3 +783,32 @@ def eval_float(p, env=None):
             t *= val(s) ** e
         tot += t
     return tot
+
+
+def model_value(p, model):
+    """rational value of an input symbol (or constant) under a z3 model; symbols represented only through their
+    square variable get sqrt(value of the square) (exact if a rational square, else the nearest double)"""
+    if p.is_const():
+        return p.const_value()
+    T = tab()
+    if p.is_monomial():
+        (m, c), = p.t.items()
+        if len(m) == 1 and m[0][1] == 1 and c == 1:
+            s = m[0][0]
+            if T.z3sq[s] is not None and s not in T.linked:
+                v = model.eval(T.z3sq[s], model_completion=True)
+                if z3.is_algebraic_value(v):
+                    v = v.approx(30)
+                f = Fraction(v.numerator_as_long(), v.denominator_as_long())
+                if f <= 0:
+                    f = Fraction(1)
+                r = _isqrt_frac(f)
+                return r if r is not None else Fraction(math.sqrt(f))
+            v = model.eval(T.z3v[s], model_completion=True)
+            if z3.is_algebraic_value(v):
+                v = v.approx(30)
+            return Fraction(v.numerator_as_long(), v.denominator_as_long())
+    v = model.eval(p.to_z3(), model_completion=True)
+    if z3.is_algebraic_value(v):
+        v = v.approx(30)
+    return Fraction(v.numerator_as_long(), v.denominator_as_long())
